@@ -388,7 +388,7 @@ def run_case(R, r):
                     new_e0 = L.replace_at(t, e0, path, expected_of(st, ee))
                     w = L.expect_str(t, new_e0, cache)
                     if now is not None and now != w:
-                        R.fail("C10:set-wrong", f"{sx[:200]}: after assigning an existing {T.type_name(st)} ({how}) to {L.pstr(path)} the object reads {now[:140]}, expected {w[:140]}", c2)
+                        R.fail("C10:set-wrong", f"{sx[:200]}: after assigning an existing {T.type_name(st)} (capacity {how}) to {L.pstr(path)} the object reads {now[:140]}, expected {w[:140]}", c2)
                     elif now is not None:
                         objs["h0"] = (obj, new_e0)
                         e0 = new_e0
@@ -404,7 +404,7 @@ def run_case(R, r):
                 else:
                     if after != before:
                         R.fail("C11:error-with-side-effect:" + ("struct-update" if st[0] == "struct" else "array-value"),
-                               f"{sx[:200]}: assigning an existing {T.type_name(st)} ({how}) to {L.pstr(path)} raised {res} but changed the buffer", c2)
+                               f"{sx[:200]}: assigning an existing {T.type_name(st)} (capacity {how}) to {L.pstr(path)} raised {res} but changed the buffer", c2)
                     elif old is not None and now != old:
                         R.fail("C11:error-with-side-effect:value", f"{sx[:200]}: refused assignment changed the value", c2)
                 hc.ops.append("deep h0")
@@ -731,9 +731,9 @@ def corpus_cases(R, r):
         if res == "ok" and how != "same":
             R.fail("C11:misfit-accepted", f"an InnerI with {len(idata)} items was assigned to a slot created with 3 items without error; data is now {[float(x) for x in obj.a.data.to_nparray()]}", ctx)
         if res != "ok" and after != before:
-            R.fail("C11:error-with-side-effect:struct-update", f"{T.sexp(t)}: assigning an existing InnerI ({how}) to f:a raised {res} but changed the buffer", ctx)
+            R.fail("C11:error-with-side-effect:struct-update", f"{T.sexp(t)}: assigning an existing InnerI (capacity {how}) to f:a raised {res} but changed the buffer", ctx)
         if int(obj.b) != 7:
-            R.fail("C03:set-writes-outside", f"assigning an InnerI ({how}) to f:a changed the sibling field b to {int(obj.b)}", ctx)
+            R.fail("C03:set-writes-outside", f"assigning an InnerI (capacity {how}) to f:a changed the sibling field b to {int(obj.b)}", ctx)
         R.tags["corpus.assign-instance-" + how] += 1
         R.lines += hc.ops
         R.expect += hc.exp
@@ -906,6 +906,51 @@ def corpus_copy_twice(R, r):
         R.tags["corpus.copy-twice"] += 1
 
 
+def corpus_string_instances(R, r):
+    """a String INSTANCE with spare room (created from a capacity, or overwritten by a shorter text) given as a value: stand-alone
+    copy, struct field, array item - the new object is equal in value, reports the extent it reserved and disturbs no neighbour
+    (oracle only)"""
+    xo = common.import_xobjects()
+    uid = next(_rd_uid)
+    S = type(xo.Struct)(f"Si{uid}Rec", (xo.Struct,), {"k": xo.Int64, "s": xo.String, "z": xo.Int64})
+    A = xo.String[:]
+    ctx = {"component": "heap", "corpus": "string-instance-with-spare-room"}
+    for how in (30, 17, 9):
+        buf = xo.ContextCpu().new_buffer(64)
+        try:
+            src = xo.String(how, _buffer=buf)          # a capacity: the empty text with spare room
+            text = ""
+            for what, build in (("String(src)", lambda: xo.String(src, _buffer=buf)),
+                                ("Rec(s=src)", lambda: S(k=1, s=src, z=2, _buffer=buf)),
+                                ("String[:]([src, 'x'])", lambda: A([src, "x"], _buffer=buf))):
+                log = []
+                orig = buf.allocate
+                buf.allocate = lambda size, align=True, _o=orig, _l=log: (_l.append((int(_o(size) if align is True else _o(size, align)), int(size))) or _l[-1][0])
+                try:
+                    obj = build()
+                finally:
+                    del buf.allocate
+                guard = xo.String("neighbour", _buffer=buf)          # the next object in the buffer
+                if isinstance(obj, xo.String):
+                    got = obj.to_str()
+                elif isinstance(obj, S):
+                    got = (int(obj.k), obj.s, int(obj.z))
+                    got = got[1] if got[0] == 1 and got[2] == 2 else got
+                else:
+                    got = obj[0] if obj[1] == "x" else (obj[0], obj[1])
+                size = int(obj._get_size()) if hasattr(obj, "_get_size") else int(obj._size)
+                own = [(o, n) for o, n in log if o == int(obj._offset)]
+                if got != text or guard.to_str() != "neighbour":
+                    R.fail("C01:value-differs", f"{what} with src a String with spare room (capacity {how}): reads {got!r} (expected {text!r}); the next "
+                           f"object in the buffer reads {guard.to_str()!r}", ctx)
+                if not own or own[0][1] != size:
+                    R.fail("C03:size-vs-extent", f"{what} with src a String with spare room (capacity {how}): reports size {size} at {int(obj._offset)} but "
+                           f"reserved {log}", ctx)
+                R.tags["corpus.string-instance"] += 1
+        except Exception as ex:
+            R.fail("C01:constructor-raises:" + type(ex).__name__, f"a String instance with spare room (capacity {how}) as a value: {type(ex).__name__}: {str(ex)[:160]}", ctx)
+
+
 def run_all(tier, seed, n=None):
     r = random.Random(seed * 999331 + 29)
     R = L.Run()
@@ -916,6 +961,7 @@ def run_all(tier, seed, n=None):
     corpus_ref_defaults(R, r)
     corpus_ref_convertible(R, r)
     corpus_copy_twice(R, r)
+    corpus_string_instances(R, r)
     for _ in range(n):
         run_case(R, r)
     cases, cur = [], []
